@@ -121,6 +121,8 @@ def run(ctx):
                   lambda P_: wire(P_, W, r'KeySchedule::from_joiner$', 3, r'^TreeKemPublic::total_leaf_count\(util::validate_tree_and_info_joiner\('), floor=1)
     ctx.check('ONE-PIPELINE', 'joiner: interim hash from the GroupInfo confirmed hash and tag',
               lambda P_: must_pass(P_, 'Group::join_with', r'InterimTranscriptHash::create$'), floor=1)
+    from .C02 import receiver_exclusion
+    ctx.check('SIBLING', 'sender and receiver locate a ciphertext in the resolution by the same exclusion rule', receiver_exclusion, floor=1)
     # ---- installation
     M = {'epoch_secrets': r'from_key_schedule\(.*\)\.epoch_secrets$', 'state.context': r'^provisional_state\.group_context$',
          'state.interim_transcript_hash': r'^interim_transcript_hash$', 'key_schedule': r'from_key_schedule\(.*\)\.key_schedule$',
